@@ -220,7 +220,7 @@ type endpoint struct {
 	lsn     map[string]string
 	rawUp   upstream.Upstream
 	rawSess *smux.Session
-	refused int // refusals seen on the real client's session so far
+	refused int  // refusals seen on the real client's session so far
 	spare   bool // stdio: the spare server (role 2) has been used up
 }
 
